@@ -177,6 +177,12 @@ void deadlock() {
 void sched_point() {
   G& G_ = gg();
   int me = tl_tid;
+  if (!G_.running && me == 0 && G_.active && !tl_in_rt) {
+    // single-threaded phases (setup / final drain) still have a step budget: a spin on a lock that was
+    // never released would otherwise hang the process
+    if (++G_.steps > G_.cfg.max_steps) { RtGuard rg2; set_status(S_STEPLIMIT, "execution exceeded step limit in the single-threaded phase (a lock is still held or an operation does not terminate)"); abort_execution(); }
+    return;
+  }
   if (!G_.running || me <= 0) return;
   RtGuard rg;
   G_.steps++;
@@ -206,8 +212,10 @@ void note_progress(int me, bool modifying, uintptr_t addr) {
       if (i != me && std::find(o->watch.begin(), o->watch.end(), addr) != o->watch.end()) { o->spinning = false; o->ro = 0; o->watch.clear(); }
     }
   } else {
-    t->ro++;
-    if (addr && std::find(t->watch.begin(), t->watch.end(), addr) == t->watch.end()) t->watch.push_back(addr);
+    // only RE-reads of a location already polled in this streak count: a long read-only scan over
+    // distinct locations (rehashing, traversals) is progress, a loop over the same locations is not
+    if (addr && std::find(t->watch.begin(), t->watch.end(), addr) == t->watch.end()) { if (t->watch.size() < 4096) t->watch.push_back(addr); }
+    else t->ro++;
     if (t->ro >= G_.cfg.spin_limit) t->spinning = true;  // takes effect at the next scheduling point
   }
 }
